@@ -342,7 +342,7 @@ fn run_property(args: &Args) -> i32 {
             known_hits += 1;
             continue;
         }
-        if reported >= 6 { continue; }
+        if reported >= std::env::var("VERIF_TRIAGE_MAX").ok().and_then(|s| s.parse::<u64>().ok()).unwrap_or(6) { continue; }
         let (min, min_viol, steps) = minimise(&mut exec, prop, scn, viol);
         let file = ReplayFile { property: prop.to_string(), seed: args.seed, index: *index, tier: tier_name.to_string(), violation: min_viol.clone(), shrink_steps: steps, scenario: min, original_scenario: scn.clone() };
         let dir = args.out.clone().unwrap_or_else(|| args.root.clone()).join("replays");
@@ -448,6 +448,8 @@ fn sanitize(s: &str) -> String {
 fn minimise(exec: &mut Executor, prop: &str, scn: &Scenario, viol: &Violation) -> (Scenario, Violation, u64) {
     let key = viol.key();
     let started = Instant::now();
+    // Wall-clock budget for shrinking one failure (VERIF_TRIAGE_SECS, default 180 s; two thirds of it for narrowing).
+    let budget = std::env::var("VERIF_TRIAGE_SECS").ok().and_then(|s| s.parse::<u64>().ok()).unwrap_or(180);
     let mut cur = scn.clone();
     let mut cur_viol = viol.clone();
     let mut steps = 0u64;
@@ -455,12 +457,12 @@ fn minimise(exec: &mut Executor, prop: &str, scn: &Scenario, viol: &Violation) -
     for cand in scn.narrow_candidates(prop) {
         attempts += 1;
         if let Some(v) = exec.run(&cand).violation { if v.key() == key { cur = cand; cur_viol = v; steps += 1; break; } }
-        if started.elapsed().as_secs() > 120 { break; }
+        if started.elapsed().as_secs() > budget * 2 / 3 { break; }
     }
     loop {
         let mut improved = false;
         for cand in cur.simpler() {
-            if attempts > 4000 || started.elapsed().as_secs() > 180 { return (cur, cur_viol, steps); }
+            if attempts > 4000 || started.elapsed().as_secs() > budget { return (cur, cur_viol, steps); }
             attempts += 1;
             if let Some(v) = exec.run(&cand).violation {
                 if v.key() == key { cur = cand; cur_viol = v; steps += 1; improved = true; break; }
